@@ -15,6 +15,7 @@ import (
 func init() {
 	mon.Register(&mon.Check{
 		ID:        "C02",
+		Boost:     4,
 		Batches:   func(tier string) int { return 16 },
 		Run:       runC02,
 		Technique: "round-trip and refusal runtime monitor over generated values on both sides of every wire-width boundary, plus decode-first round trips over a hostile byte corpus",
